@@ -9,7 +9,7 @@ MCLevelsT == {Absent} \cup (-1..10)
 MCModesT  == {Absent} \cup (0..25)
 B(cat, nuc, level, mode, win) ==
   [cat |-> cat, nuc |-> nuc, level |-> level, mode |-> mode, win |-> win,
-   seed |-> "none", count |-> Absent, act |-> "none", mdl |-> "none", fault |-> "none"]
+   seed |-> "none", count |-> Absent, act |-> "none", mdl |-> "none", fault |-> "none", sp |-> "plain"]
 MCBases == { B("background", "bkgP", Absent, Absent, "none"),     \* accepted background
              B("dbd", "Mo100", 0, 4, "both"),                     \* accepted 2nubb with a window
              B("dbd", "Cd106", 1, 10, "none"),                    \* accepted e-capture mode to a 2+ level
